@@ -227,6 +227,9 @@ def growLoop : Nat → DRow → Heap → Bool × DRow × Heap
     | (none, h1) => (true, r, h1)
     | (some b, h1) => growLoop n { r with elems := r.elems ++ [b] } h1
 
+/-- The row after the construction loop (thrown or not), then destroyed. -/
+def finishGrow (x : Bool × DRow × Heap) : Outcome := Outcome.ofHeap x.1 x.2.1.ok (drowDestroy x.2.1 x.2.2)
+
 /-- `Dense_Row::resize(new_size)` on a live row, growing case with reallocation:
 allocate `new_vec` (may throw: nothing changed), `memcpy`, deallocate the old `vec`, then the
 construction loop. -/
@@ -238,16 +241,12 @@ def denseResize (r : DRow) (newSize : Nat) (h : Heap) : Outcome :=
     let r' := { r with elems := keep }
     Outcome.ofHeap false r'.ok (drowDestroy r' h1)
   else
-    let step (r1 : DRow) (h1 : Heap) : Outcome :=
-      match growLoop (newSize - r1.elems.length) r1 h1 with
-      | (t, r2, h2) => Outcome.ofHeap t r2.ok (drowDestroy r2 h2)
     if newSize > r.cap then
       match h.alloc with
       | (none, h1) => Outcome.ofHeap true r.ok (drowDestroy r h1)
       | (some nv, h1) =>
-        let h2 := h1.freeOpt r.vec
-        step { r with vec := some nv, cap := newSize } h2
-    else step r h
+        finishGrow (growLoop (newSize - r.elems.length) { r with vec := some nv, cap := newSize } (h1.freeOpt r.vec))
+    else finishGrow (growLoop (newSize - r.elems.length) r h)
 
 /-- `Dense_Row::Dense_Row(const Dense_Row& y, dimension_type capacity)`: a constructor whose
 member `impl` is fully constructed before the body runs, so `~Impl()` runs if the body throws.
@@ -399,6 +398,15 @@ def mipDestroy (s : CSeq) (h : Heap) : Heap := (h.freeAll s.ptrs).freeOpt s.buf
 pointers releases its buffer, the pointees are not deleted. -/
 def mipMembersOnly (s : CSeq) (h : Heap) : Heap := h.freeOpt s.buf
 
+/-- The reservation step of `add_constraint_helper` (`std::vector::reserve`: allocate the new
+buffer, move the pointers, release the old buffer). -/
+def mipReserve (s : CSeq) (h : Heap) : Bool × CSeq × Heap :=
+  if s.ptrs.length = s.cap then
+    match h.alloc with
+    | (none, h1) => (true, s, h1)
+    | (some nb, h1) => (false, { s with buf := some nb, cap := 2 * (s.ptrs.length + 1 + 1) }, h1.freeOpt s.buf)
+  else (false, s, h)
+
 /-- `MIP_Problem::add_constraint_helper(c)`:
 ```
 if (size == capacity) input_cs.reserve(compute_capacity(size + 1, max_size));
@@ -406,13 +414,7 @@ input_cs.push_back(new Constraint(c));     // push_back cannot throw: space is r
 ```
 Returns (thrown, sequence, heap). -/
 def mipHelper (s : CSeq) (h : Heap) : Bool × CSeq × Heap :=
-  let reserve : Bool × CSeq × Heap :=
-    if s.ptrs.length = s.cap then
-      match h.alloc with
-      | (none, h1) => (true, s, h1)
-      | (some nb, h1) => (false, { s with buf := some nb, cap := 2 * (s.ptrs.length + 1 + 1) }, h1.freeOpt s.buf)
-    else (false, s, h)
-  match reserve with
+  match mipReserve s h with
   | (true, s1, h1) => (true, s1, h1)
   | (false, s1, h1) =>
     match h1.alloc with                                  -- new Constraint(c)
@@ -443,15 +445,11 @@ def mipCtor (n : Nat) (h : Heap) : Outcome :=
 /-- `MIP_Problem::MIP_Problem(const MIP_Problem& y)`: `input_cs.reserve(y.input_cs.size())` and
 then the same loop. -/
 def mipCopy (n : Nat) (h : Heap) : Outcome :=
-  let start : Bool × CSeq × Heap :=
-    if n = 0 then (false, { buf := none, cap := 0, ptrs := [] }, h) else
-    match h.alloc with
-    | (none, h1) => (true, { buf := none, cap := 0, ptrs := [] }, h1)
-    | (some b, h1) => (false, { buf := some b, cap := n, ptrs := [] }, h1)
-  match start with
-  | (true, s, h1) => Outcome.ofHeap true true (mipMembersOnly s h1)
-  | (false, s, h1) =>
-    match helperLoop n s h1 with
+  if n = 0 then Outcome.ofHeap false true h else
+  match h.alloc with                                   -- input_cs.reserve(y.input_cs.size())
+  | (none, h1) => Outcome.ofHeap true true h1
+  | (some b, h1) =>
+    match helperLoop n { buf := some b, cap := n, ptrs := [] } h1 with
     | (true, s1, h2) => Outcome.ofHeap true true (mipMembersOnly s1 h2)
     | (false, s1, h2) => Outcome.ofHeap false s1.ok (mipDestroy s1 h2)
 
@@ -461,5 +459,65 @@ def mipCtorGuarded (n : Nat) (h : Heap) : Outcome :=
   match helperLoop n { buf := none, cap := 0, ptrs := [] } h with
   | (true, s, h1) => Outcome.ofHeap true true (mipDestroy s h1)
   | (false, s, h1) => Outcome.ofHeap false s.ok (mipDestroy s h1)
+
+/-! ## receivers that exist before the call, and the runs `runWithFaultAt` -/
+
+/-- An allocation made while the receiver was built (before the call under test: cannot fail). -/
+def Heap.take (h : Heap) : Nat × Heap :=
+  (h.next, { h with next := h.next + 1, live := h.next :: h.live })
+
+def takeN : Nat → List Nat → Heap → List Nat × Heap
+  | 0, acc, h => (acc, h)
+  | n + 1, acc, h => let (b, h1) := h.take; takeN n (acc ++ [b]) h1
+
+/-- A live `CO_Tree` with `m` elements (`m = 0`: the empty tree). -/
+def buildTree (m : Nat) (h : Heap) : Tree × Heap :=
+  if m = 0 then (Tree.empty, h) else
+  let (bi, h1) := h.take
+  let (bd, h2) := h1.take
+  let (es, h3) := takeN m [] h2
+  (Tree.mk (some bi) (some bd) (reservedOf m) es m (some bi), h3)
+
+/-- A live `Dense_Row` with `m` coefficients and capacity `cap ≥ m` (`cap = 0`: no storage). -/
+def buildRow (m cap : Nat) (h : Heap) : DRow × Heap :=
+  if cap = 0 then (DRow.empty, h) else
+  let (v, h1) := h.take
+  let (es, h2) := takeN (min m cap) [] h1
+  ({ vec := some v, cap := cap, elems := es }, h2)
+
+/-- A live vector with `m` elements and capacity `cap ≥ m`. -/
+def buildVec (m cap : Nat) (h : Heap) : SVec × Heap :=
+  if cap = 0 then ({ buf := none, cap := 0, elems := [] }, h) else
+  let (v, h1) := h.take
+  let (es, h2) := takeN (min m cap) [] h1
+  ({ buf := some v, cap := cap, elems := es }, h2)
+
+def buildSeq (m cap : Nat) (h : Heap) : CSeq × Heap :=
+  if cap = 0 then ({ buf := none, cap := 0, ptrs := [] }, h) else
+  let (v, h1) := h.take
+  let (es, h2) := takeN (min m cap) [] h1
+  ({ buf := some v, cap := cap, ptrs := es }, h2)
+
+/-- The live set every run must come back to: the `pre` older blocks. -/
+def initialLive (pre : Nat) : List Nat := (List.range pre).reverse
+
+namespace Run
+def cotreeCopy (x : List Bool) (pre k : Nat) : Outcome := Alloc.cotreeCopy x (Heap.start pre k)
+def cotreeIter (n pre k : Nat) : Outcome := Alloc.cotreeIter n (Heap.start pre k)
+def cotreeIterGuarded (n pre k : Nat) : Outcome := Alloc.cotreeIterGuarded n (Heap.start pre k)
+def cotreeAssign (m : Nat) (x : List Bool) (pre k : Nat) : Outcome :=
+  let (t0, h) := buildTree m (Heap.start pre k); Alloc.cotreeAssign t0 x h
+def denseCopy (m cap pre k : Nat) : Outcome := Alloc.denseCopy m cap (Heap.start pre k)
+def denseResize (m cap newSize pre k : Nat) : Outcome :=
+  let (r, h) := buildRow m cap (Heap.start pre k); Alloc.denseResize r newSize h
+def svecPush (m cap pre k : Nat) : Outcome :=
+  let (v, h) := buildVec m cap (Heap.start pre k); Alloc.svecPush v h
+def pipClone (guard : Bool) (t : PNode) (pre k : Nat) : Outcome := Alloc.pipClone guard t (Heap.start pre k)
+def mipAdd (m cap pre k : Nat) : Outcome :=
+  let (s, h) := buildSeq m cap (Heap.start pre k); Alloc.mipAdd s h
+def mipCtor (n pre k : Nat) : Outcome := Alloc.mipCtor n (Heap.start pre k)
+def mipCopy (n pre k : Nat) : Outcome := Alloc.mipCopy n (Heap.start pre k)
+def mipCtorGuarded (n pre k : Nat) : Outcome := Alloc.mipCtorGuarded n (Heap.start pre k)
+end Run
 
 end PPLV.Alloc
